@@ -139,6 +139,12 @@ def gen_class_job(ch, jid, label):
     documented = ch.subset(label + ".docsub", [p["name"] for p in params], 0.5)
     if ch.chance(label + ".docshuf", 0.3):
         documented = ch.shuffle(label + ".docshuf2", documented)
+    # other definitions of the name __init__ below the class: a nested class with a constructor of its own (before or after
+    # the class's own), a class defined locally inside a method.  Python's view of the class is not affected by them.
+    nested = ch.weighted(label + ".nested", [(None, 8), ("before", 1), ("after", 1), ("local", 1)])
+    inner = ["    class Inner(object):", '        """ helper """', "", "        def __init__(self, warmup: int = 3, decay: float = 0.5):", "            self.warmup = warmup", ""]
+    if nested == "before":
+        lines += inner
     sig = ["self"] + [p["name"] + (": %s" % p["typ"]) + ((" = " + render.lit(p["default"])) if p["default"] is not None else "") for p in params]
     lines.append("    def __init__(%s):" % ", ".join(sig))
     byname = {p["name"]: p for p in params}
@@ -150,6 +156,10 @@ def gen_class_job(ch, jid, label):
         for n in documented:
             lines += ["        :param %s: %s" % (n, byname[n]["doc"]), ""]
         lines += ['        """', "        self.value = 1"]
+    if nested == "after":
+        lines += [""] + inner[:-1]
+    elif nested == "local":
+        lines += ["", "    def build(self):", "        class Local(object):", "            def __init__(self, scratch=1):", "                self.scratch = scratch", "", "        return Local()"]
     src = "\n".join(lines) + "\n"
     truth = {"attrs": attrs, "init": [p["name"] for p in params], "documented": documented, "doc_attrs": doc_attrs,
              "params": {p["name"]: {"typ": p["typ"], "default": p["default"], "doc": p["doc"]} for p in params}, "attr_info": attr_info}
